@@ -11,7 +11,8 @@ EXTENDS MutualClose
 
 CONSTANTS KS,        \* abstract states: at most KS fields deviate from the good state
           KR,        \* abstract requests: at most KR fields deviate from the good request
-          Mags       \* channel magnitudes explored
+          Mags,      \* channel magnitudes explored
+          Saturate   \* behaviour switch of ImplStep (see CodeRate in MutualClose.tla)
 
 VARIABLES s, closed, g, last
 
@@ -40,7 +41,7 @@ Advance == /\ ~closed
 Close == \E r \in AbsReqs(s, KR) :
            LET w == WorldOf(s, r.allow)
                q == JudgedReq(ConcReq(s, r))
-               o == ImplStep(w, q)
+               o == ImplStep(w, q, [saturate |-> Saturate])
                fs == FailSets(w, q)
                must == MustRefuseF(fs) IN
            /\ closed' = (closed \/ o.ok)
